@@ -149,9 +149,7 @@ class Net:
         node = self.nodes[n]
         self.choice = node.peers[str(m)][0]
         try:
-            node.local.chain_manager.step(self.clock())
-        except Exception as e:
-            node.escaped.append(("chain_manager.step", repr(e)))
+            node.run_once(only_chain_manager=True)             # the node's own loop: it reads the clock itself and steps its managers
         finally:
             self.choice = None
         self.collect()
